@@ -1,12 +1,207 @@
-(* Property C05 -- placeholder while the pipeline is brought up; theorems follow. *)
+(* Property C05 -- run outcome and termination at every finish, failure and cancel point.
+   Statements only; proofs live in Proofs/PoolProofs.v.  The model (Model/Pool.v) follows
+   core/engine/engine.go; [fixed] is the tree after the two fix commits, [orig] the tree
+   before them.  Every theorem quantifies over the number of pools, the number of instances
+   of each pool ([cfg]) and over EVERY history [tr]: every fault plan (which results carry
+   which error), every position of the caller's cancel, every order in which the result
+   channels become ready and every choice of the select in onErrAwaited.
+
+   reachable cfg g  :=  exists tr, grun fixed cfg (ginit cfg) tr = Some g. *)
 From Coq Require Import List Arith Bool.
-From PV Require Import Model.Pool.
+From PV Require Import Model.Pool Proofs.PoolProofs.
 Import ListNotations.
 
-Example C05_healthy_run :
-  option_map (fun g => option_map er_res (eng g))
-    (grun fixed [1] (ginit [1])
-       [GvPool 0 (PvPre PreOk); GvPool 0 (PvMsg (StartRes 1 ENil) ChSend); GvPool 0 (PvMsg (RunRes 0 ENil) ChSend);
-        GvPool 0 (PvMsg (ProvRes ENil) ChSend); GvPool 0 (PvMsg (AggrRes ECtx) ChSend); GvPool 0 PvFrontClosed; GvEngRecv 0])
-  = Some (Some RNil).
-Proof. vm_compute. reflexivity. Qed.
+(* the correspondence run and the theorems are about the same variant of the code *)
+Theorem C05_model_is_current_tree : current = fixed.
+Proof. reflexivity. Qed.
+Print Assumptions C05_model_is_current_tree.
+
+(* ---- C05_terminates ------------------------------------------------------------------ *)
+
+(* Executions are finite: no history has more than 2 + sum (instances_i + 9) steps. *)
+Theorem C05_terminates_bounded : forall v cfg tr g,
+  grun v cfg (ginit cfg) tr = Some g -> length tr <= 2 + cfg_bound cfg.
+Proof. exact run_bounded. Qed.
+Print Assumptions C05_terminates_bounded.
+
+(* No deadlock: while something is left to run, a step other than the caller's cancel is
+   possible (provided outstanding components deliver their result -- the liveness hypothesis
+   on provider, aggregator, start loop and instances). *)
+Theorem C05_terminates_no_deadlock : forall cfg g,
+  reachable cfg g -> terminal g = false ->
+  exists e, e <> GvCancel /\ gstep fixed cfg g e <> None.
+Proof. exact progress. Qed.
+Print Assumptions C05_terminates_no_deadlock.
+
+(* The await loop can always take any outstanding result, whatever error it carries: the
+   select in onErrAwaited always has an arm that fires (so the loop never blocks for ever). *)
+Theorem C05_terminates_await_receptive : forall n parent s m,
+  ph s = PhAwait -> msg_allowed n parent s m = true -> pending (aw s) m = true ->
+  exists ch, pstep fixed n parent s (PvMsg m ch) <> None.
+Proof. exact await_receptive. Qed.
+Print Assumptions C05_terminates_await_receptive.
+
+(* When nothing is left to run: Engine.Run has returned, Engine.Wait() returns (onWaitDone
+   was called exactly once per pool), and in every pool that got past warm-up the await loop
+   received its four kinds of result -- provider, aggregator, start, and one result of every
+   started instance --, runCancel() was called, nothing panicked. *)
+Theorem C05_terminates : forall cfg g,
+  reachable cfg g -> terminal g = true ->
+  eng g <> None /\ wait_returns g = true /\
+  forall p s n, nth_error (pools g) p = Some s -> nth_error cfg p = Some n -> pool_final n s.
+Proof. exact terminal_final. Qed.
+Print Assumptions C05_terminates.
+
+(* onWaitDone is never called twice (a second Done would panic the WaitGroup). *)
+Theorem C05_wait_done_at_most_once : forall cfg g s, reachable cfg g -> In s (pools g) -> wait_done s <= 1.
+Proof. exact wait_done_at_most_once. Qed.
+Print Assumptions C05_wait_done_at_most_once.
+
+(* "closable guns are closed": the full statement (created = closed) is false of the model
+   of the current tree -- the warm-up gun and guns whose Bind failed are never closed -- ... *)
+Theorem C05_guns_closed_refuted :
+  exists g, grun fixed [1] (ginit [1])
+     [GvPool 0 (PvPre PreOk); GvPool 0 (PvMsg (StartRes 1 ENil) ChSend); GvPool 0 (PvMsg (RunRes 0 ENil) ChSend);
+      GvPool 0 (PvMsg (ProvRes ENil) ChSend); GvPool 0 (PvMsg (AggrRes ENil) ChSend); GvPool 0 PvFrontClosed; GvEngRecv 0] = Some g /\
+    terminal g = true /\ total_created g = 2 /\ total_closed g = 1.
+Proof. exact guns_closed_refuted. Qed.
+Print Assumptions C05_guns_closed_refuted.
+
+(* ... what holds: every created gun is closed except those never handed to an instance.
+   Partial: the guard "owned by a started instance" excludes exactly the known finding. *)
+Theorem C05_guns_closed_partial : forall cfg g,
+  reachable cfg g -> total_created g = total_closed g + total_unbound g.
+Proof. exact guns_closed_partial. Qed.
+Print Assumptions C05_guns_closed_partial.
+
+(* ---- C05_success_iff ----------------------------------------------------------------- *)
+
+(* er_fails / er_cancelled of the return record are the failures that had occurred and
+   whether the caller had cancelled at the moment Engine.Run returned. *)
+Theorem C05_return_record_is_snapshot : forall v cfg g e g' er,
+  gstep v cfg g e = Some g' -> eng g = None -> eng g' = Some er ->
+  er_cancelled er = cancelled g /\ er_fails er = all_fails g.
+Proof. exact eret_snapshot. Qed.
+Print Assumptions C05_return_record_is_snapshot.
+
+(* Without a cancel by the caller: Run returns nil iff no component had failed. *)
+Theorem C05_success_iff : forall cfg g er,
+  reachable cfg g -> eng g = Some er -> er_cancelled er = false ->
+  (er_res er = RNil <-> er_fails er = []).
+Proof. exact outcome_success_iff. Qed.
+Print Assumptions C05_success_iff.
+
+(* Run returns nil only at the natural end: every pool got past warm-up, awaited provider,
+   aggregator, start and all its instances, and its own Run returned nil; a failure can be
+   among the awaited results only if the caller had cancelled before Run returned. *)
+Theorem C05_success_only_at_natural_end : forall cfg g er,
+  reachable cfg g -> eng g = Some er -> er_res er = RNil ->
+  (forall p s n, nth_error (pools g) p = Some s -> nth_error cfg p = Some n ->
+     front s = Some RNil /\ ph s = PhDone /\ awaited (aw s) = n /\ prov_pending (aw s) = false /\
+     aggr_pending (aw s) = false /\ start_pending (aw s) = false) /\
+  (er_fails er = [] \/ er_cancelled er = true).
+Proof. exact outcome_nil_complete. Qed.
+Print Assumptions C05_success_only_at_natural_end.
+
+(* ---- C05_error_carried --------------------------------------------------------------- *)
+
+(* If some component had failed and the caller had not cancelled, Run returns an error whose
+   cause is one of the failures that occurred. *)
+Theorem C05_error_carried : forall cfg g er,
+  reachable cfg g -> eng g = Some er -> er_fails er <> [] -> er_cancelled er = false ->
+  exists p c, er_res er = RFail c /\ In (p, c) (er_fails er).
+Proof. exact outcome_error_carried. Qed.
+Print Assumptions C05_error_carried.
+
+(* Two-sided: a failure returned by Run did occur, and is not returned after a cancel. *)
+Theorem C05_error_returned_occurred : forall cfg g er c,
+  reachable cfg g -> eng g = Some er -> er_res er = RFail c ->
+  er_cancelled er = false /\ exists p, In (p, c) (er_fails er).
+Proof. exact outcome_fail_sound. Qed.
+Print Assumptions C05_error_returned_occurred.
+
+(* ---- C05_cancel_prompt --------------------------------------------------------------- *)
+
+(* After the caller's cancel Engine.Run can return ctx.Err() at once, without any component. *)
+Theorem C05_cancel_prompt_engine : forall v cfg g,
+  cancelled g = true -> eng g = None ->
+  exists g', gstep v cfg g GvEngCtx = Some g' /\ option_map er_res (eng g') = Some RCtx.
+Proof. exact cancel_engine_enabled. Qed.
+Print Assumptions C05_cancel_prompt_engine.
+
+(* ... and so can every instancePool.Run that reached its select. *)
+Theorem C05_cancel_prompt_pool : forall v n s,
+  front s = None -> (ph s = PhAwait \/ ph s = PhDone) ->
+  exists s', pstep v n true s PvFrontCtx = Some s' /\ front s' = Some RCtx.
+Proof. exact cancel_front_enabled. Qed.
+Print Assumptions C05_cancel_prompt_pool.
+
+(* What Run returns once the caller has cancelled: the cancellation error -- or nil, but only
+   when every pool had already returned nil (the natural end raced with the cancel). *)
+Theorem C05_cancel_result : forall cfg g er,
+  reachable cfg g -> eng g = Some er -> er_cancelled er = true ->
+  er_res er = RCtx \/ (er_res er = RNil /\ forall s, In s (pools g) -> front s = Some RNil).
+Proof. exact outcome_after_cancel. Qed.
+Print Assumptions C05_cancel_result.
+
+(* The cancellation error is returned only if the caller cancelled. *)
+Theorem C05_ctx_error_means_cancel : forall cfg g er,
+  reachable cfg g -> eng g = Some er -> er_res er = RCtx -> er_cancelled er = true /\ cancelled g = true.
+Proof. exact outcome_ctx_means_cancel. Qed.
+Print Assumptions C05_ctx_error_means_cancel.
+
+(* The executable specification used on the implementation's observations holds of the model. *)
+Theorem C05_spec_sound : forall cfg g er,
+  reachable cfg g -> eng g = Some er ->
+  spec_outcome_b (er_fails er) (er_cancelled er) (er_res er) = true.
+Proof. exact spec_outcome_holds. Qed.
+Print Assumptions C05_spec_sound.
+
+(* ---- the tree before the fix commits --------------------------------------------------- *)
+
+(* #4 (fixed by a0becc0): schedule factory error with a shared profile: Wait() never returns *)
+Theorem C05_orig_terminates_refuted :
+  exists g, grun orig [1] (ginit [1]) refute4_trace = Some g /\ terminal g = true /\ wait_returns g = false.
+Proof. exact orig_wait_hangs. Qed.
+Print Assumptions C05_orig_terminates_refuted.
+
+(* #5 (fixed by c19eb6a): provider error awaited after runCancel dropped, Run returns nil *)
+Theorem C05_orig_error_carried_refuted :
+  exists g er, grun orig [1] (ginit [1]) refute5_trace = Some g /\ eng g = Some er /\
+    er_res er = RNil /\ er_cancelled er = false /\ er_fails er = [(0, CProv)].
+Proof. exact orig_error_dropped. Qed.
+Print Assumptions C05_orig_error_carried_refuted.
+
+Theorem C05_fixed_excludes_the_dropping_history : grun fixed [1] (ginit [1]) refute5_trace = None.
+Proof. exact fixed_rejects_refute5. Qed.
+Print Assumptions C05_fixed_excludes_the_dropping_history.
+
+(* ---- non-vacuity ----------------------------------------------------------------------- *)
+
+(* a reachable terminal state of two pools in which a failure occurred and was carried *)
+Example C05_example_failure_carried :
+  exists g er, grun fixed [1; 0] (ginit [1; 0])
+    [GvPool 0 (PvPre PreOk); GvPool 1 (PvPre PreOk);
+     GvPool 0 (PvMsg (StartRes 1 ENil) ChSend); GvPool 0 (PvMsg (RunRes 0 (EFail CShootPanic)) ChSend);
+     GvEngRecv 0;
+     GvPool 1 PvFrontCtx; GvPool 1 (PvMsg (StartRes 0 ECtx) ChSend);
+     GvPool 0 (PvMsg (ProvRes ECtx) ChSend); GvPool 0 (PvMsg (AggrRes (EFail CAggr)) ChSuppress);
+     GvPool 1 (PvMsg (ProvRes ENil) ChSend); GvPool 1 (PvMsg (AggrRes ENil) ChSend)] = Some g /\
+    terminal g = true /\ wait_returns g = true /\ eng g = Some er /\
+    er_res er = RFail CShootPanic /\ er_cancelled er = false /\ er_fails er = [(0, CShootPanic)].
+Proof. eexists. eexists. split; [vm_compute; reflexivity|]. repeat split. Qed.
+
+(* a cancelled run: Run returns the cancellation error although a provider failed afterwards *)
+Example C05_example_cancel :
+  exists g er, grun fixed [1] (ginit [1])
+    [GvPool 0 (PvPre PreOk); GvPool 0 (PvMsg (StartRes 1 ENil) ChSend); GvCancel; GvEngCtx;
+     GvPool 0 (PvMsg (ProvRes (EFail CProv)) ChSuppress); GvPool 0 PvFrontCtx;
+     GvPool 0 (PvMsg (RunRes 0 ECtx) ChSend); GvPool 0 (PvMsg (AggrRes ECtx) ChSend)] = Some g /\
+    terminal g = true /\ wait_returns g = true /\ eng g = Some er /\ er_res er = RCtx /\ er_cancelled er = true.
+Proof. eexists. eexists. split; [vm_compute; reflexivity|]. repeat split. Qed.
+
+(* the hypotheses of C05_terminates_await_receptive are satisfiable with a failing message *)
+Example C05_example_receptive :
+  exists s, pstep fixed 1 false pstate_init (PvPre PreOk) = Some s /\ ph s = PhAwait /\
+    msg_allowed 1 false s (ProvRes (EFail CProv)) = true /\ pending (aw s) (ProvRes (EFail CProv)) = true.
+Proof. eexists. split; [reflexivity|]. repeat split. Qed.
